@@ -1,48 +1,145 @@
-(* C08 - Variable bindings never form a cycle. *)
-From Suiron Require Import Model.Term Model.Subst Model.Unify Spec.SpecCompare
-  Proofs.UnifyInv Proofs.UnifyProps.
+(* C08, total correctness: "following bindings from any variable ends ...; resolving or printing
+   answers always terminates" - and unification itself terminates on unifiable input.
 
-(* `chains_end ss`: following bindings from ANY term ends, at an unbound variable or at a
-   non-variable term (Spec.SpecCompare.chain is the "follow the bindings" relation). *)
+   Setting (Spec/SpecUnifySem.v): terms denote finite trees under a valuation sigma; sigma solves a
+   substitution set when every bound variable has the value of its binding.  `ev P` = "P holds for
+   every fuel from some fuel on": the model's fuel is only a device.
 
-(* One successful unification keeps that true ... *)
-Theorem C08_unify_keeps_chains_ending : forall fuel a b ss ss',
-  wf_term a = true -> wf_term b = true -> wf_ss ss ->
-  unify fuel a b ss = Ok (Some ss') -> chains_end ss -> chains_end ss'.
-Proof. exact unify_chains_end. Qed.
+   PROVED (Proofs/UnifyTerminates.v)
+     (T1) chains_end ss (no cycle of variables - kept by every unification, C08) is exactly what
+          makes get_ground_term / get_constant / get_list / get_complex and the alias test
+          terminate, from ANY term, with the answer the `chain` relation gives.
+     (T2) resolving: plain + parser-shaped (tok) term and set, chains_end, a solution sigma =>
+          replace_variables terminates with a term of the same value under sigma.
+          tok is kept by unification (unify_keeps_tok, an instance of a general closure lemma:
+          every binding unify makes is a part of an operand), so this applies to every answer
+          whose substitution set has a solution (C08_answer_resolves).
+     (T3) unification: plain, well-formed operands and set, chains_end, and a sigma that solves
+          the set AND gives both operands the same value => unify terminates, with success and a
+          set of the same kind (solved by the same sigma) - or with the Panic for a variable id 0.
+          Together with C06 (whenever unify returns: most general, complete, sound): on unifiable
+          input unify is a total, correct decision.
+   FALSE (compiled witnesses in Proofs/UnifyTerminates.v, restated below)
+     - solvable does not imply chains_end: $X -> $Y -> $X is solved by every constant valuation;
+     - `plain` alone is not enough for (T2): the `next` of a tail node is never looked at by
+       unification or by `den`, a hand-built one can close a cycle;
+     - unification does NOT terminate on every solvable input, and does not decide
+       NON-unifiability: f($X, $Y, $X) = f(g($X), g($Y), $Y) from the empty set binds
+       $X -> g($X), $Y -> g($Y) (no occurs check) and then loops on $X = $Y. *)
+From Coq Require Import String Lia.
+From Suiron Require Import Model.Term Model.Subst Model.Unify Model.Builtins
+  Spec.SpecCompare Spec.SpecUnify Spec.SpecUnifySem
+  Proofs.SubstLemmas Proofs.UnifyInv Proofs.UnifyProps Proofs.UnifySemSound Proofs.UnifyTerminates.
+Open Scope N_scope.
 
-(* ... so it is true after every sequence of successful unifications from the empty set,
-   of any length, over any terms. *)
-Theorem C08_no_cycle_after_any_sequence : forall fuel pairs ss',
-  wf_pairs pairs -> unify_seq fuel pairs [] = Ok (Some ss') -> chains_end ss'.
+(* (T1) *)
+Theorem C08_follow_terminates : forall ss, chains_end ss ->
+  forall t, exists r, chain ss t r /\ ev (fun f => get_ground_term f t ss = Ok r).
+Proof. exact get_ground_term_terminates. Qed.
+
+Theorem C08_follow_bound : forall ss t k, crank ss t k ->
+  exists r, chain ss t r /\ forall f, (k <= f)%nat -> get_ground_term f t ss = Ok r.
+Proof. exact get_ground_term_ev. Qed.
+
+Theorem C08_constant_list_complex_terminate : forall ss, chains_end ss -> forall t,
+  (exists r, ev (fun f => get_constant f t ss = Ok r)) /\
+  (exists r, ev (fun f => get_list f t ss = Ok r)) /\
+  (exists r, ev (fun f => get_complex f t ss = Ok r)).
 Proof.
-  intros fuel pairs ss' Hw H.
-  destruct (unify_seq_invariants fuel pairs [] ss' Hw wf_ss_nil H) as (_ & _ & Hc & _).
-  apply Hc, chains_end_nil.
+  intros ss H t. split; [apply get_constant_terminates, H|]. split; [apply get_list_terminates, H|].
+  apply get_complex_terminates, H.
 Qed.
 
-(* Unifying two variables that are already aliased (both chains end at the same unbound
-   variable), in either order, succeeds and adds no binding. *)
-Theorem C08_aliased_noop : forall ss a b v,
-  ends_at ss v a -> ends_at ss v b ->
-  exists f0, forall f, (f0 <= f)%nat -> unify f a b ss = Ok (Some ss).
-Proof. exact unify_aliased_noop. Qed.
-
-(* non-vacuity: after $X = $Y the two are aliased, and $Y = $X returns the same set *)
-Example C08_witness :
-  let ss := [None; Some (TVar 2 [89%N]); None] in
-  ends_at ss 2 (TVar 1 [88%N]) /\ ends_at ss 2 (TVar 2 [89%N]) /\
-  unify 5 (TVar 2 [89%N]) (TVar 1 [88%N]) ss = Ok (Some ss) /\
-  unify 5 (TVar 1 [88%N]) (TVar 2 [89%N]) ss = Ok (Some ss).
+(* (T2) *)
+Theorem C08_resolve_terminates : forall sigma ss t,
+  plain_ss ss -> tok_ss ss -> solves sigma ss -> chains_end ss ->
+  plain t = true -> tok t = true ->
+  exists t', ev (fun f => replace_variables f t ss = Ok t') /\ den sigma t' = den sigma t.
 Proof.
-  simpl. repeat split.
-  - eapply ends_step; [discriminate|reflexivity|]. apply ends_here; [discriminate|reflexivity].
-  - apply ends_here; [discriminate|reflexivity].
+  intros sigma ss t P T S C Pt Tt.
+  destruct (replace_variables_terminates sigma ss P T S C t (or_introl Pt) Tt) as (t' & E & D & _). eauto.
 Qed.
 
-Check C08_no_cycle_after_any_sequence : forall fuel pairs ss',
-  wf_pairs pairs -> unify_seq fuel pairs [] = Ok (Some ss') -> chains_end ss'.
+(* ... for the substitution set of an answer: whatever unification returned, if it has a solution *)
+Theorem C08_answer_resolves : forall sigma fuel a b ss ss' q,
+  plain a = true -> wf_term a = true -> tok a = true ->
+  plain b = true -> wf_term b = true -> tok b = true ->
+  plain_ss ss -> wf_ss ss -> tok_ss ss -> chains_end ss ->
+  unify fuel a b ss = Ok (Some ss') -> solves sigma ss' ->
+  plain q = true -> tok q = true ->
+  exists q', ev (fun f => replace_variables f q ss' = Ok q') /\ den sigma q' = den sigma q.
+Proof.
+  intros sigma fuel a b ss ss' q Pa Wa Ta Pb Wb Tb P W T C H S Pq Tq.
+  destruct (unify_ssound fuel a b ss ss' Pa Pb P H) as (P' & _ & _).
+  apply C08_resolve_terminates; try assumption.
+  - exact (unify_keeps_tok fuel a b ss ss' Ta Tb T H).
+  - exact (unify_chains_end fuel a b ss ss' Wa Wb W H C).
+Qed.
 
-Print Assumptions C08_unify_keeps_chains_ending.
-Print Assumptions C08_no_cycle_after_any_sequence.
-Print Assumptions C08_aliased_noop.
+(* (T3) *)
+Theorem C08_unify_terminates : forall sigma a b ss,
+  plain a = true -> wf_term a = true -> plain b = true -> wf_term b = true ->
+  plain_ss ss -> wf_ss ss -> chains_end ss -> solves sigma ss ->
+  den sigma a = den sigma b ->
+  exists f0 r, (forall f, (f0 <= f)%nat -> unify f a b ss = r) /\
+    (r = Panic \/
+     exists ss', r = Ok (Some ss') /\ plain_ss ss' /\ wf_ss ss' /\ chains_end ss' /\ solves sigma ss').
+Proof.
+  intros sigma a b ss Pa Wa Pb Wb P W C S D.
+  destruct (unify_total sigma a b ss (conj Pa Wa) (conj Pb Wb) (conj P (conj W (conj C S))) D)
+    as (f0 & r & Hf & Hr).
+  exists f0, r. split; [exact Hf|]. destruct Hr as [->|(ss' & -> & P' & W' & C' & S')]; [now left|right; eauto 8].
+Qed.
+
+(* ---- the witnesses ---- *)
+Example C08_variable_cycle_is_solvable :
+  let ss := [None; Some wY; Some wX] in
+  solves (fun _ => TrNil) ss /\ plain_ss ss /\ forall f, get_ground_term f wX ss = OutOfFuel.
+Proof. exact variable_cycle. Qed.
+
+Example C08_junk_next_of_tail_node :
+  let ss := [None; Some wjunk; None] in
+  plain wjunk = true /\ tok wjunk = false /\
+  solves (fun id => if id =? 1 then TrCons (TrAtom [97]%N) TrNil else TrNil) ss /\
+  forall f, replace_variables f wX ss = OutOfFuel.
+Proof. exact junk_next. Qed.
+
+Example C08_unify_can_diverge :
+  plain (wf3 wX wY wX) = true /\ plain (wf3 (wg wX) (wg wY) wY) = true /\
+  forall f, unify f (wf3 wX wY wX) (wf3 (wg wX) (wg wY) wY) [] = OutOfFuel.
+Proof. exact occurs_check_diverges. Qed.
+
+(* ---- non-vacuity: f($X, $Y) = f(g($Y), a) from the empty set; sigma: $Y = a, $X = g(a) ---- *)
+Definition dY := TVar 2 [36; 89]%N.
+Definition da := TAtom [97]%N.
+Definition dleft := TComplex [TAtom [102]%N; wX; dY].
+Definition dright := TComplex [TAtom [102]%N; wg dY; da].
+Definition dsig : valuation := fun id => if id =? 1 then TrNode [TrAtom [103]%N; TrAtom [97]%N] else TrAtom [97]%N.
+
+Example C08_demo :
+  den dsig dleft = den dsig dright /\
+  (exists f0 ss', forall f, (f0 <= f)%nat -> unify f dleft dright [] = Ok (Some ss')) /\
+  unify 5 dleft dright [] = Ok (Some [None; Some (wg dY); Some da]) /\
+  replace_variables 6 dleft [None; Some (wg dY); Some da] = Ok (TComplex [TAtom [102]%N; wg da; da]).
+Proof.
+  split; [reflexivity|]. split; [|split; vm_compute; reflexivity].
+  destruct (C08_unify_terminates dsig dleft dright [] eq_refl eq_refl eq_refl eq_refl) as (f0 & r & Hf & Hr).
+  - intros id t H. now rewrite ss_get_nil in H.
+  - apply wf_ss_nil.
+  - apply chains_end_nil.
+  - intros id t H. now rewrite ss_get_nil in H.
+  - reflexivity.
+  - exists (Nat.max f0 5), [None; Some (wg dY); Some da]. intros f L.
+    rewrite (Hf f ltac:(lia)). rewrite <- (Hf (Nat.max f0 5) ltac:(lia)).
+    assert (forall k, unify (5 + k) dleft dright [] = Ok (Some [None; Some (wg dY); Some da])) as Hk.
+    { intro k. cbn. reflexivity. }
+    replace (Nat.max f0 5) with (5 + (Nat.max f0 5 - 5))%nat by lia. apply Hk.
+Qed.
+
+Print Assumptions C08_follow_terminates.
+Print Assumptions C08_resolve_terminates.
+Print Assumptions C08_answer_resolves.
+Print Assumptions C08_unify_terminates.
+Print Assumptions C08_unify_can_diverge.
+Print Assumptions C08_follow_bound.
+Print Assumptions C08_constant_list_complex_terminate.
